@@ -458,3 +458,67 @@ func H01_ParseFree() {
 	verif.Reach("accepted")
 	stableAfterAccept(b)
 }
+
+// H01_Edited: the CRC bytes a block carries are a cache, not a field of the value: a bundle whose blocks were created
+// by the constructors (which compute a CRC), or came out of the parser, and whose exported fields were changed
+// afterwards is still a valid bundle - it serialises to bytes the parser accepts and yields the edited values. One
+// field is edited per path: lifetime, report-to, destination, control flags, the fragment fields, a canonical block's
+// flags, or its content.
+func H01_Edited() {
+	crcs := []CRCType{CRC16, CRC32}
+	pcrc := crcs[verif.Choose("pcrc", 2)]
+	pb := NewPrimaryBlock(MustNotFragmented, symEID("", 4, false), symEID("", 1, false), NewCreationTimestamp(DtnTime(tsAlive), 3), 1000)
+	pb.SetCRCType(pcrc)
+	cb := NewCanonicalBlock(2, 0, NewHopCountBlock(9))
+	cb.SetCRCType(crcs[verif.Choose("ccrc", 2)])
+	pl := NewCanonicalBlock(1, 0, NewPayloadBlock(verif.Bytes("pl", 2)))
+	pl.SetCRCType(crcs[verif.Choose("lcrc", 2)])
+	b := MustNewBundle(pb, []CanonicalBlock{cb, pl})
+	if verif.Bool("parsedfirst") {
+		// the same bundle after a trip over the wire (the parser stores the received CRC bytes)
+		b2, err := ParseBundle(bytes.NewReader(serialised(b)))
+		verif.Assert(err == nil, "unedited bundle is accepted")
+		b = b2
+	} else {
+		_ = serialised(b) // a first serialisation fills the caches
+	}
+	hop := 0
+	for i := range b.CanonicalBlocks {
+		if b.CanonicalBlocks[i].TypeCode() == ExtBlockTypeHopCountBlock {
+			hop = i
+		}
+	}
+	switch verif.Choose("edit", 7) {
+	case 0:
+		b.PrimaryBlock.Lifetime = symU64w("lifetime", true)
+	case 1:
+		b.PrimaryBlock.ReportTo = symEID("rt", verif.Choose("rtkind", 6), false)
+	case 2:
+		b.PrimaryBlock.Destination = symEID("dst", 1+verif.Choose("dstkind", 5), false)
+	case 3:
+		b.PrimaryBlock.BundleControlFlags = StatusRequestDelivery | RequestStatusTime
+	case 4:
+		b.PrimaryBlock.BundleControlFlags = IsFragment
+		b.PrimaryBlock.FragmentOffset, b.PrimaryBlock.TotalDataLength = symU64w("fo", false), symU64w("tl", true)
+	case 5:
+		b.CanonicalBlocks[hop].BlockControlFlags = ReplicateBlock
+	case 6:
+		b.CanonicalBlocks[hop].Value = &HopCountBlock{Limit: verif.U8("hl"), Count: 0}
+	}
+	verif.Assume(b.CheckValid() == nil)
+	enc := serialised(b)
+	got, err := ParseBundle(bytes.NewReader(enc))
+	verif.Assert(err == nil, "an edited bundle serialises to bytes the parser accepts")
+	if err != nil {
+		return
+	}
+	verif.Assert(primaryEqual(got.PrimaryBlock, b.PrimaryBlock), "the parsed primary block carries the edited values")
+	verif.Assert(len(got.CanonicalBlocks) == len(b.CanonicalBlocks), "same blocks")
+	for i := range got.CanonicalBlocks {
+		g, w := got.CanonicalBlocks[i], b.CanonicalBlocks[i]
+		verif.Assert(verif.And(g.BlockNumber == w.BlockNumber, g.BlockControlFlags == w.BlockControlFlags, g.CRCType == w.CRCType, extValueEqual(0, w.Value, g.Value)),
+			"the parsed canonical blocks carry the edited values")
+	}
+	verif.Assert(bytes.Equal(serialised(got), enc), "serialising the result again yields the same bytes")
+	verif.Reach("end")
+}
